@@ -123,3 +123,26 @@ func Harness_C12_leak_combine() {
 		verifAssert(verifPendingAfterFuncs() == 0, "no_afterfunc_left_registered_on_other_contexts")
 	})
 }
+
+// C12 close_vs_diff: a Diff (or Buffer.Range) on a consumer racing that consumer's Close: both terminate
+// (lock order consumer -> buffer everywhere), Done closes, the consumer is deregistered.
+func Harness_C12_close_vs_diff() {
+	s := verifConcreteBuffer()
+	c, _, _ := s.verifAddConsumerAt(0, 0)
+	b := s.b
+	var ok bool
+	diffDone, closeErr := false, error(nil)
+	go func() {
+		_, ok = b.Diff(c)
+		diffDone = true
+	}()
+	go func() { closeErr = c.Close() }()
+	verifFinally(func() {
+		verifAssert(diffDone && closeErr == nil, "diff_and_close_both_terminate")
+		verifAssert(verifClosed(c.Done()), "done_closed")
+		_, present := b.consumers[c]
+		verifAssert(!present, "closed_consumer_is_deregistered")
+		_ = ok
+		verifReach("quiescent")
+	})
+}
